@@ -76,7 +76,19 @@ func oracleC06(x *Exec, so *StepObs) {
 			return
 		}
 	}
-	if op.ClientOnly && op.DryRunOption != "server" {
+	// client-only rendering = what `helm template` without --validate does. An explicit --dry-run=server|none|false asks for
+	// cluster access (lookup goes live) and is not judged; ClientOnly without any dry-run selector is not helm template.
+	explicitRemote := op.DryRunOption == "server" || op.DryRunOption == "none" || op.DryRunOption == "false"
+	isTemplate := op.ClientOnly && (op.DryRun || op.DryRunOption == "client" || op.DryRunOption == "true")
+	if op.Op == "cli" {
+		isTemplate = op.ClientOnly
+		for _, a := range op.CLI {
+			if a == "--dry-run=server" || a == "--dry-run=none" || a == "--dry-run=false" {
+				explicitRemote = true
+			}
+		}
+	}
+	if isTemplate && !explicitRemote {
 		x.Res.Checks++
 		if len(r.Reqs) > 0 {
 			fail("client-only-no-request", fmt.Sprintf("%s %s was sent by client-only rendering", r.Reqs[0].Verb, r.Reqs[0].Path))
@@ -102,6 +114,15 @@ func genC06(seed, index uint64, tier string) *Plan {
 	co.CRDs = g.Chance(0.4)
 	co.Subcharts = g.Chance(0.4)
 	p.Charts = g.ChartFamily(co)
+	if g.Chance(0.3) {
+		// a chart that asks the cluster a question while rendering: client-only rendering must not reach the cluster even so
+		for ci := range p.Charts {
+			if p.Charts[ci].RawFiles == nil {
+				p.Charts[ci].RawFiles = map[string]string{}
+			}
+			p.Charts[ci].RawFiles["templates/c06-lookup.yaml"] = "apiVersion: v1\nkind: ConfigMap\nmetadata:\n  name: c06-lookup\ndata:\n  seen: {{ (lookup \"v1\" \"ConfigMap\" .Release.Namespace \"c06-probe\") | toJson | quote }}\n"
+		}
+	}
 	p.NSMissing = g.Chance(0.2)
 	ho := &HistoryOpts{NVersions: len(p.Charts), Flags: true, MaxHistory: true, WaitP: 0.3, AtomicP: 0.3, FirstInst: 1}
 	npre := g.Weighted(3, 4, 3, 2)
